@@ -20,12 +20,12 @@ Definition p_ctr (i : N) (cur : option N) (o : op) : option N :=
   | Abs j v => if (j =? i) && is_kind j KC then Some (N.max (dflt cur 0) v) else cur
   | _ => cur
   end.
-Definition p_gau (i : N) (cur : option Z) (o : op) : option Z :=
+Definition p_gau (i : N) (cur : option xnum) (o : op) : option xnum :=
   match o with
-  | Register j => if (j =? i) && is_kind j KG then Some (dflt cur 0%Z) else cur
+  | Register j => if (j =? i) && is_kind j KG then Some (dflt cur xzero) else cur
   | GSet j v => if (j =? i) && is_kind j KG then Some v else cur
-  | GInc j v => if (j =? i) && is_kind j KG then Some (dflt cur 0 + v)%Z else cur
-  | GDec j v => if (j =? i) && is_kind j KG then Some (dflt cur 0 - v)%Z else cur
+  | GInc j v => if (j =? i) && is_kind j KG then Some (xadd (dflt cur xzero) v) else cur
+  | GDec j v => if (j =? i) && is_kind j KG then Some (xadd (dflt cur xzero) (xneg v)) else cur
   | _ => cur
   end.
 Definition p_raw (i : N) (cur : option N) (o : op) : option N :=
@@ -34,14 +34,14 @@ Definition p_raw (i : N) (cur : option N) (o : op) : option N :=
   | GBits j b => if (j =? i) && is_kind j KR then Some b else cur
   | _ => cur
   end.
-Definition p_pend (i : N) (cur : option (list Z)) (o : op) : option (list Z) :=
+Definition p_pend (i : N) (cur : option (list xnum)) (o : op) : option (list xnum) :=
   match o with
   | Register j => if (j =? i) && is_kind j KH then Some (dflt cur []) else cur
   | Rec j v => if (j =? i) && is_kind j KH then Some (dflt cur [] ++ [v]) else cur
   | Upkeep | Render => option_map (fun _ => []) cur
   | _ => cur
   end.
-Definition p_dist (k : key) (pcur : option (list Z)) (cur : option dist) (o : op) : option dist :=
+Definition p_dist (k : key) (pcur : option (list xnum)) (cur : option dist) (o : op) : option dist :=
   match o with
   | Upkeep | Render =>
       match pcur with
@@ -50,7 +50,7 @@ Definition p_dist (k : key) (pcur : option (list Z)) (cur : option dist) (o : op
       end
   | _ => cur
   end.
-Definition p_hist (k : key) (i : N) (cur : option (list Z) * option dist) (o : op) :=
+Definition p_hist (k : key) (i : N) (cur : option (list xnum) * option dist) (o : op) :=
   (p_pend i (fst cur) o, p_dist k (fst cur) (snd cur) o).
 Definition p_descr (n : str) (cur : option (str * option unit_t)) (o : op) :=
   match o with
@@ -90,8 +90,8 @@ Proof.
   destruct (aget str_eqb _ (descr s)); reflexivity.
 Qed.
 
-Lemma aget_cleared i (l : list (N * list Z)) :
-  aget N.eqb i (map (fun ib => (fst ib, @nil Z)) l) = option_map (fun _ => []) (aget N.eqb i l).
+Lemma aget_cleared i (l : list (N * list xnum)) :
+  aget N.eqb i (map (fun ib => (fst ib, @nil xnum)) l) = option_map (fun _ => []) (aget N.eqb i l).
 Proof. induction l as [|[j b] l IH]; simpl; auto. destruct (i =? j); auto. Qed.
 
 Lemma step_pend s o i : aget N.eqb i (pend (fst (step c s o))) = p_pend i (aget N.eqb i (pend s)) o.
@@ -198,7 +198,7 @@ Proof.
   - cbn. apply drain_all_get; auto.
 Qed.
 
-Lemma cleared_keys (l : list (N * list Z)) : map fst (map (fun ib => (fst ib, @nil Z)) l) = map fst l.
+Lemma cleared_keys (l : list (N * list xnum)) : map fst (map (fun ib => (fst ib, @nil xnum)) l) = map fst l.
 Proof. rewrite map_map. reflexivity. Qed.
 
 Lemma step_SI s o : SI s -> SI (fst (step c s o)).
